@@ -6,7 +6,6 @@ package main
 
 import (
 	"encoding/json"
-	"fmt"
 	"os"
 	"strings"
 
@@ -83,6 +82,13 @@ func (h *harness) replay(path string) {
 		h.blockTxImage(rp.Spec, "replay")
 		return
 	}
+	if strings.HasPrefix(doc.Sig, "historyprunner-rerun-fails") {
+		var pr prunerReplay
+		if err := json.Unmarshal(doc.Replay, &pr); err == nil && pr.What != "" {
+			h.prunerRestoreCrash(pr.Spec, "replay")
+			return
+		}
+	}
 	var fh fullHistory
 	if err := json.Unmarshal(doc.Replay, &fh); err == nil && len(fh.Spec.Chain.Layout) > 0 {
 		// note: which store commit is the k-th depends on goroutine scheduling inside the
@@ -97,5 +103,3 @@ func (h *harness) replay(path string) {
 	}
 	h.res.Note("replay: no replayer for sig %q", doc.Sig)
 }
-
-var _ = fmt.Sprintf
